@@ -21,4 +21,45 @@ func init() {
 		RequiredProbes: []string{"fault:cut", "fault:disk-crash-write", "outcome:error", "fault:empty-read"},
 		TimeUnit:       "stream read operations",
 	})
+
+	register(PropCfg{
+		ID:    "C13",
+		Level: "exploration",
+		Rule: "one evaluation = one simulated execution: 2-4 client tasks issue 2-6 UpdateParameter/ParameterData/Artifact calls each on a real graph.Instance over a generated multi-level graph, " +
+			"interleaved by the seeded scheduler (policies: random, PCT, round-robin, starve-one, newest-first, sticky) at the hooks around the producer lock and inside every node processor, under the race detector; " +
+			"the recorded history is checked by porcupine against a sequential model. distinct_nontrivial = distinct schedule signatures (hash of the (step, task, site) sequence) in which operations of two clients overlapped in time",
+		Scenarios: []ScenCfg{{Name: "graph-clients", Race: true, Chunk: 40, QuickRuns: 2400, QuickS: 75, ThoroughRuns: 400000, ThoroughS: 1200, Procs: 4, DetQuick: 24, DetThorough: 120}},
+		Assumptions: []string{
+			"schedules are explored at the granularity of the yield points (around the producer lock, between two input reads of every harness processor, around the client calls); finer-grained atomicity violations surface only through the race detector",
+			"race detection is ThreadSanitizer's happens-before analysis over the executed schedule",
+			"porcupine verdict Unknown (30 s timeout) is counted, never reported",
+			"harness node types (LeafData, MixData, ProdData) stand in for user nodes; Instance, nodes.Struct, parameter.Value are real",
+		},
+		RealVsStub: map[string]string{
+			"real": "generator/graph.Instance (UpdateParameter, ParameterData, Artifact, AddProducer), nodes.Struct caching/versioning, parameter.Value, sync.Mutex, Go runtime scheduler primitives",
+			"stub": "detsched (who runs next), harness node processors and text artifact, client loops; the HTTP/WebSocket front end is not part of the simulation",
+		},
+		RequiredProbes: []string{"probe:overlapping-operations", "probe:call-arrived-during-evaluation", "porcupine:Ok"},
+		TimeUnit:       "scheduler steps (one released task per step)",
+	})
+
+	register(PropCfg{
+		ID:    "C11",
+		Level: "exploration",
+		Rule: "one evaluation = one operation of a generated history (update a source, re-wire a scalar input, append to / remove from an array input, read a node, look at State/Version) over a generated DAG of real nodes.Struct nodes (<=8) on <=5 sources (parameter.Value and nodes.ValueNode); " +
+			"after every operation the real graph is compared with a from-scratch evaluator and an execution/version model; the order in which a node enumerates its dependencies (Go map order in the real program) is a seeded choice. " +
+			"distinct_nontrivial = distinct histories (hash of the operation sequence with results) that contain an update or re-wiring followed by a read of a node at distance >= 2 from its sources",
+		Scenarios: []ScenCfg{{Name: "node-histories", Chunk: 2000, QuickRuns: 60000, QuickS: 60, ThoroughRuns: 20000000, ThoroughS: 900, Procs: 2, DetQuick: 200, DetThorough: 2000}},
+		Assumptions: []string{
+			"minimal recomputation is read permissively: an update call counts as a change even if the value is equal, and re-wiring an upstream node counts as a change for every node downstream",
+			"harness processors read every connected input and combine them injectively, so freshness is decidable from the output string",
+			"the map-order seam (nodes.VerifPermute, tag verif) only produces orders the untagged program can exhibit",
+		},
+		RealVsStub: map[string]string{
+			"real": "nodes.Struct (SetInput, Outdated, Dependencies, Value, State, Version), nodes.ValueNode, parameter.Value, refutil reflection helpers",
+			"stub": "harness processors (Bin/Tri/Arr/Mix) with execution log; from-scratch evaluator and dirty-set model; seeded permutation standing in for Go map order",
+		},
+		RequiredProbes: []string{"fault:map-order-permutations", "probe:read-served-from-cache", "op:array-remove", "op:rewire"},
+		TimeUnit:       "history operations",
+	})
 }
